@@ -89,6 +89,7 @@ def _check_main(run, P):
     run.do(_routines, run, P)
     run.do(_init_shutdown, run, P)
     run.do(_lastuse, run, P)
+    run.do(_last_use_not_persistent, run, P)
     run.do(_visitors, run, P)
 
 
@@ -732,6 +733,46 @@ def _lastuse(run, P):
         run.ob("C12.lastuse", m, m.node, ok,
                construct=f"{name}: release at last use is the last thing emitted",
                why="released before the statement's own code the operands are gone")
+
+
+def _last_use_not_persistent(run, P):
+    """Whatever the generator does to a variable because "this is its last use in the phase"
+    (release it, take its reference away) it does not do to a persistent variable: the last
+    use in one phase is not the last use of a variable that lives across steps."""
+    G_ = P.cls(GEN)
+    oracles = {name for name, m in G_.methods.items()
+               if name != "emit_deinit_for_last_usage_of_vars" and any(
+                   isinstance(x, ast.Attribute) and x.attr == "last_used_stmt_table"
+                   and isinstance(x.ctx, ast.Load) for x in ast.walk(m.node))
+               and any(isinstance(r, ast.Return) and r.value is not None for r in ast.walk(m.node))
+               # (a helper that excludes persistent variables itself answers for per-step ones only)
+               and "is_state_variable(" not in ast.unparse(m.node)}
+    n = 0
+    from .util import path_conditions
+    for name, m in sorted(G_.methods.items()):
+        for x in ast.walk(m.node):
+            if not (isinstance(x, ast.Call) and (dotted(x.func) or "") in {f"self.{o}" for o in oracles}):
+                continue
+            n += 1
+            # the boolean expression the answer is part of, and the conditions around it
+            holder = next((b for b in ast.walk(m.node) if isinstance(b, ast.BoolOp)
+                           and any(y is x for y in ast.walk(b))), None)
+            st_ = next((s_ for s_ in ast.walk(m.node) if isinstance(s_, ast.stmt)
+                        and not isinstance(s_, (ast.For, ast.While, ast.FunctionDef, ast.Try, ast.With))
+                        and any(y is x for y in ast.walk(s_))), None)
+            texts = [ast.unparse(holder)] if holder is not None else []
+            if isinstance(st_, ast.If):
+                texts.append(ast.unparse(st_.test))
+            elif st_ is not None:
+                texts += [t for t, _ in path_conditions(m.node, st_)]
+            ok = any("is_state_variable(" in t for t in texts)
+            run.ob("C12.lastuse", m, x, ok,
+                   construct=f"{name}: {norm(x, 50)} is acted on only for a variable that is not persistent "
+                             f"(is_state_variable in the same test)",
+                   why="a persistent variable whose reference is given away or released at its last use "
+                       "in a phase is unassociated (or dangling) when the next step reads it")
+    if oracles and n == 0:
+        raise AnalysisError(f"last-use helper(s) {sorted(oracles)} are never called")
 
 
 def reachable_visitors(run, P, rule):
